@@ -4,18 +4,32 @@
    (Gen/ParseTables.v, regenerated on every run; the table lemmas of part 1 are re-proved
    against it every time).
 
-   1. Table lemmas: bp_table_matches, led_nud_tables_match, symbols_match, keywords_match,
-      token_names_match, bp_rows_ok (the binding powers induce exactly the ten rows of the
-      property), bp_row_order, every_led_has_bp, no_bp_without_led, assign_is_lowest, bp_gap,
-      nud_set_ok.
-   2. Lexer-level clauses: C04_ws, C04_quotes (from scan_string_spec), C04_regex_div (+ the
-      allowRegex flag of every advance in the Pratt loop), C04_kw_names.
-   3. C04_paren.
-   4. The grouping theorem: pratt_wf (the abstract Pratt loop yields a well-grouped tree with
-      the right yield), pratt_complete (every well-grouped tree is what the loop returns on its
-      yield), wf_unique, wf_climb; the equations that make the abstract loop the model's loop
-      (led_* lemmas, parseExpression_unfold, ledLoop_unfold) and the token-level simulation
-      C04_pratt_model. *)
+   1. Table lemmas: bp_table_matches, led_nud_tables_match, symbols_match (+ symbols1_iff),
+      keywords_match (+ keywords_only), token_names_match, bp_rows_ok (the binding powers induce
+      exactly the ten rows of the property), bp_rows_same_rows, bp_row_order, every_led_has_bp,
+      no_bp_without_led, row_iff_led, assign_is_lowest, bp_gap, assign_rbp_ok, nud_set_ok.
+   2. Lexer-level clauses, from exact-result lemmas about the lexer primitives on error-free
+      states (nextRune_mkL, accept_mkL, skipWhitespace_mkL, scanStringLoop_body, ...):
+      C04_ws, scan_string_spec, C04_quotes, scanRegex_type, C04_regex_div; the allowRegex flag
+      of every advance/consume (parseExpression_unfold, ledLoop_unfold, newParser_flag,
+      C04_closer_flags, C04_separator_flags, C04_signature_flags); C04_kw_names.
+   3. C04_paren (parseBlock_single).
+   4. The grouping theorem, for ANY ranks lside/rside: pratt_wf (the abstract Pratt loop yields a
+      well-grouped tree with the right yield), pratt_complete (every well-grouped tree is what
+      the loop returns on its yield), wf_unique, pratt_total, pratt_chain, wf_climb.
+      4b. led_binary, led_assign, led_conditional, led_postfix: the equations that make the
+      abstract loop the model's loop.
+   5. C04_pratt_model: on token streams of simple operands and the 17 binary operators and :=,
+      the model's parseExpression/ledLoop compute exactly the abstract loop instantiated with
+      the model's binding-power table; C04_chain: hence the parse of every such chain is THE
+      well-grouped tree.
+      Remaining glue for the full end-to-end statement (not proved here): (i) a lemma producing
+      the [stream] hypothesis from the source text of a chain (one lexing lemma per token kind:
+      names, variables, symbols; whitespace is C04_ws, strings scan_string_spec, numbers
+      C11Proofs.scan_number_spec); (ii) the postfix operators ( ) [ ] { } ^( ) and ? : in the
+      simulation (their bracketed parts are nested parseExpression 0 calls: led_postfix,
+      led_conditional, C04_paren state the per-operator equations; the abstract theory of part 4
+      already covers postfix operators and the else-branch). *)
 From JV Require Import Model.Lexer Model.Parser Proofs.LexerProofs Proofs.ParserProofs
   Proofs.Utf8Proofs Gen.ParseTables Spec.C04.
 From Coq Require Import Lia ZifyBool ZifyNat.
@@ -726,6 +740,22 @@ Proof.
     f_equal; f_equal; first [f_equal; lia|apply mkL_eq; lia].
 Qed.
 
+(* ... in particular the parser's [advance] cannot tell whether whitespace precedes the next
+   token: the parser states before and after the whitespace step to the same state *)
+Corollary C04_ws_advance allowRegex (p p2 : parser) ws rest :
+  err (plexer p) = None -> err (plexer p2) = None -> input (plexer p2) = input (plexer p) ->
+  0 <= current (plexer p) <= llength (plexer p) ->
+  sdrop (Z.to_nat (current (plexer p))) (input (plexer p)) = ws ++ rest -> all_ws ws = true ->
+  current (plexer p2) = current (plexer p) + Z.of_nat (slen ws) ->
+  advance allowRegex p = advance allowRegex p2.
+Proof.
+  intros He He2 Hi Hc Hrem Hws Hc2. unfold advance.
+  assert (Hfu : lex_fuel (plexer p2) = lex_fuel (plexer p)) by (unfold lex_fuel; rewrite Hi; reflexivity).
+  rewrite Hfu.
+  rewrite (C04_ws (lex_fuel (plexer p)) allowRegex (plexer p) (plexer p2) ws rest); auto.
+  unfold lex_fuel, llength in *. lia.
+Qed.
+
 (* C04_quotes: which quote character delimits a string does not matter.  For a body with neither
    quote character nor backslash, the double-quoted and the single-quoted spelling lex to string
    tokens with the same type and the same value (the body itself). *)
@@ -907,10 +937,17 @@ Lemma newParser_flag src :
                   end.
 Proof. reflexivity. Qed.
 
-(* C04_regex_div, parser side, for the tokens consumed INSIDE nuds and leds: a closing ) ] } of a
-   block, array, object, call, predicate or group ends an operand (flag false); separators and
-   opening tokens are followed by an operand (flag true).  The three remaining closers pass
-   TRUE although they end an operand — see C04_regex_after_closer_quirk below. *)
+(* C04_regex_div, parser side, for the tokens consumed INSIDE nuds and leds.  The rule:
+   allowRegex = false for the token that follows the END of an operand, allowRegex = true for the
+   token that precedes the START of an operand.  Every call of consume / advance in the parser is
+   listed in one of the three lemmas below, with its flag (the equations are the definitions).
+
+   (1) C04_closer_flags — after the end of an operand, flag FALSE: the closing ] of an array, ) of
+   a block, } of an object or group, ) of a call, the placeholder ? of a partial application,
+   ] of a predicate, ) of ^( ), } of a function body, the closing | of a transform (the last
+   four passed true before the repair "fix: / after a sort, a function body or a transform is
+   read as the start of a regular expression": a^(b)/2 was rejected); also the ) that ends a
+   parameter list (no operand follows: < or the body's brace does). *)
 Lemma C04_closer_flags lf pe t lhs :
   parseArray lf pe t =
     (do ty <- curType;
@@ -925,17 +962,19 @@ Lemma C04_closer_flags lf pe t lhs :
   /\ parsePredicate pe t lhs =
     (do ty <- curType;
      if tt_eqb ty typeBracketClose then consume typeBracketClose false ;; sret (NSingletonArray lhs)
-     else do rhs <- pe 0; consume typeBracketClose false ;; sret (NPred lhs rhs)).
-Proof. repeat split; reflexivity. Qed.
-
-(* the closing parenthesis of ^( ), the closing brace of a function body and the closing bar of a
-   transform are consumed with allowRegex = TRUE: a [/] that directly follows one of these
-   operands is lexed as the start of a regular expression, not as division (the running
-   implementation indeed rejects a^(b)/2; jsonata-js has the same flag there) *)
-Lemma C04_regex_after_closer_quirk lf pe t lhs :
-  parseSort lf pe t lhs =
+     else do rhs <- pe 0; consume typeBracketClose false ;; sret (NPred lhs rhs))
+  /\ parseSort lf pe t lhs =
     (consume typeParenOpen true ;; do terms <- parseSortLoop pe lf [];
-     consume typeParenClose true ;; sret (NSort lhs terms))
+     consume typeParenClose false ;; sret (NSort lhs terms))
+  /\ parseObjectTransformation pe t =
+    (do pattern <- pe 0;
+     consume typePipe true ;;
+     do updates <- pe 0;
+     do ty <- curType;
+     do deletes <- (if tt_eqb ty typeComma then consume typeComma true ;; do d <- pe 0; sret (Some d)
+                    else sret None);
+     consume typePipe false ;;
+     sret (NTransform pattern updates deletes))
   /\ (forall sh, parseLambdaDefinition lf pe sh =
        (do paramNames <- extractParamNames lf pe;
         do sg <- extractSignature lf;
@@ -948,10 +987,128 @@ Lemma C04_regex_after_closer_quirk lf pe t lhs :
                       else sret []);
         consume typeBraceOpen true ;;
         do body <- pe 0;
-        consume typeBraceClose true ;;
+        consume typeBraceClose false ;;
         if negb isTyped then sret (NLambda paramNames body sh)
-        else sret (NTypedLambda paramNames body sh params))).
-Proof. split; [reflexivity|intros sh; reflexivity]. Qed.
+        else sret (NTypedLambda paramNames body sh params)))
+  /\ (forall f args isPartial, parseArgsLoop pe (S f) args isPartial =
+       (do ty <- curType;
+        do ap <- (if tt_eqb ty typePlaceholder then
+                    consume typePlaceholder false ;; sret (NPlaceholder, true)
+                  else do a <- pe 0; sret (a, isPartial));
+        let '(arg, isPartial) := ap in
+        let args := (args ++ [arg])%list in
+        do ty <- curType;
+        if negb (tt_eqb ty typeComma) then sret (args, isPartial)
+        else consume typeComma true ;; parseArgsLoop pe f args isPartial))
+  /\ parseFunctionCall lf pe t lhs =
+       (let '(isLambda, shorthand) := isLambdaName lhs in
+        if isLambda then parseLambdaDefinition lf pe shorthand
+        else
+          do ty <- curType;
+          do ap <- (if negb (tt_eqb ty typeParenClose) then parseArgsLoop pe lf [] false else sret ([], false));
+          let '(args, isPartial) := ap in
+          consume typeParenClose false ;;
+          if isPartial then sret (NPartial lhs args) else sret (NCall lhs args))
+  /\ extractParamNames lf pe =
+       (do currToken <- curToken;
+        do names <- (if negb (tt_eqb (ttype currToken) typeParenClose)
+                     then extractParamNamesLoop pe lf currToken [] else sret []);
+        consume typeParenClose false ;;
+        sret names).
+Proof. repeat split; reflexivity. Qed.
+
+(* (2) C04_separator_flags — before the start of an operand, flag TRUE: after the separators
+   .. , : ; and the first | of a transform, after the ( of ^( ) and its direction marks < >,
+   after the opening brace of a function body, after the : of a conditional (the opening
+   brackets and the infix operators themselves are consumed by ledLoop's advance true,
+   ledLoop_unfold; the first token of the program by newParser_flag) *)
+Lemma C04_separator_flags pe f :
+  (forall items, parseArrayLoop pe (S f) items =
+     (do item <- pe 0;
+      do ty <- curType;
+      do item <- (if tt_eqb ty typeRange then
+                    consume typeRange true ;; do rhs <- pe 0; sret (NRange item rhs)
+                  else sret item);
+      let items := (items ++ [item])%list in
+      do ty <- curType;
+      if negb (tt_eqb ty typeComma) then sret items
+      else consume typeComma true ;; parseArrayLoop pe f items))
+  /\ (forall pairs, parseObjectLoop pe (S f) pairs =
+     (do key <- pe 0;
+      consume typeColon true ;;
+      do value <- pe 0;
+      let pairs := (pairs ++ [(key, value)])%list in
+      do ty <- curType;
+      if negb (tt_eqb ty typeComma) then sret pairs
+      else consume typeComma true ;; parseObjectLoop pe f pairs))
+  /\ (forall exprs, parseBlockLoop pe (S f) exprs =
+     (do ty <- curType;
+      if tt_eqb ty typeParenClose then sret exprs
+      else
+        do e <- pe 0;
+        let exprs := (exprs ++ [e])%list in
+        do ty <- curType;
+        if negb (tt_eqb ty typeSemicolon) then sret exprs
+        else consume typeSemicolon true ;; parseBlockLoop pe f exprs))
+  /\ (forall terms, parseSortLoop pe (S f) terms =
+     (do ty <- curType;
+      do dir <- (if tt_eqb ty typeLess then consume typeLess true ;; sret SortAscending
+                 else if tt_eqb ty typeGreater then consume typeGreater true ;; sret SortDescending
+                 else sret SortDefault);
+      do e <- pe 0;
+      let terms := (terms ++ [(dir, e)])%list in
+      do ty <- curType;
+      if negb (tt_eqb ty typeComma) then sret terms
+      else consume typeComma true ;; parseSortLoop pe f terms))
+  /\ (forall cur names, extractParamNamesLoop pe (S f) cur names =
+     (do arg <- pe 0;
+      match arg with
+      | NVariable name =>
+          if smem name names then perr (mkError ErrDuplicateParam cur "")
+          else
+            let names := (names ++ [name])%list in
+            do ty <- curType;
+            if negb (tt_eqb ty typeComma) then sret names
+            else
+              consume typeComma true ;;
+              do currToken <- curToken;
+              extractParamNamesLoop pe f currToken names
+      | _ => perr (mkError ErrIllegalParam cur "")
+      end)).
+Proof. repeat split; reflexivity. Qed.
+
+(* (3) C04_signature_flags — neither: the tokens of a lambda signature < ... > are not an
+   expression; they are read with flag true and the closing > likewise (a brace follows) *)
+Lemma C04_signature_flags lf f sig depth :
+  extractSignature lf =
+    (do ty <- curType;
+     if negb (tt_eqb ty typeLess) then sret ("", false)
+     else
+       do sig <- extractSignatureLoop lf "" 1;
+       consume typeGreater true ;;
+       sret (sig, true))
+  /\ extractSignatureLoop (S f) sig depth =
+    (do ty <- curType;
+     if tt_eqb ty typeBraceOpen || tt_eqb ty typeEOF then sret sig
+     else
+       advance true ;;
+       do t <- curToken;
+       if tt_eqb (ttype t) typeGreater then
+         let depth := depth - 1 in
+         if depth =? 0 then sret sig
+         else extractSignatureLoop f (sig ++ tvalue t) depth
+       else if tt_eqb (ttype t) typeLess then
+         extractSignatureLoop f (sig ++ tvalue t) (depth + 1)
+       else extractSignatureLoop f (sig ++ tvalue t) depth).
+Proof. split; reflexivity. Qed.
+
+(* The one remaining deviation from the rule is in parseExpression itself (parseExpression_unfold):
+   the token after the FIRST token of an operand is always requested with allowRegex = false,
+   also when that first token only OPENS the operand — ( [ { of a block, array, object, the
+   unary minus, the opening | of a transform — so that a regular expression directly after one
+   of these five tokens is not recognised: the programs (/ab/), [/ab/], -/ab/ are rejected
+   with ErrPrefix for the token / (after a separator it works: [1, /ab/]).  jsonata-js passes
+   the same flag.  See C04_opener_regex_quirk_ex below. *)
 
 (* C04_kw_names: where an operand is expected, the words and, or, in are field names *)
 Theorem C04_kw_names lf pe t :
@@ -1070,6 +1227,29 @@ Theorem led_postfix lf pe :
 Proof. repeat split; reflexivity. Qed.
 
 End ParserClauses.
+
+(* after the repair: a / that follows ^( ), a function body or a transform is the division *)
+Example C04_regex_after_closer_ex (pn : string -> numlit) (rc : string -> option string)
+  (fg : f64 -> string) (q : string -> string) :
+  parse_raw pn rc fg q (parse_fuel "a^(b)/c") "a^(b)/c" =
+    ROk (NNumeric NumDiv (NSort (NName "a" false) [(SortDefault, NName "b" false)]) (NName "c" false))
+  /\ (exists l, parse_raw pn rc fg q (parse_fuel "function($x){$x}/c") "function($x){$x}/c" =
+                ROk (NNumeric NumDiv l (NName "c" false)))
+  /\ (exists l, parse_raw pn rc fg q (parse_fuel "|a|{}|/c") "|a|{}|/c" =
+                ROk (NNumeric NumDiv l (NName "c" false))).
+Proof. split; [|split; eexists]; vm_compute; reflexivity. Qed.
+
+(* the remaining deviation: a regular expression directly after an opening ( [ or a unary minus *)
+Example C04_opener_regex_quirk_ex (pn : string -> numlit) (fg : f64 -> string) (q : string -> string) :
+  let rc := fun _ : string => @None string in
+  (exists e, parse_raw pn rc fg q (parse_fuel "[/ab/]") "[/ab/]" = RErr e /\ etype e = ErrPrefix /\ etoken e = "/") /\
+  (exists e, parse_raw pn rc fg q (parse_fuel "(/ab/)") "(/ab/)" = RErr e /\ etype e = ErrPrefix /\ etoken e = "/") /\
+  (exists e, parse_raw pn rc fg q (parse_fuel "-/ab/") "-/ab/" = RErr e /\ etype e = ErrPrefix /\ etoken e = "/") /\
+  parse_raw pn rc fg q (parse_fuel "[x,/ab/]") "[x,/ab/]" = ROk (NArray [NName "x" false; NRegex "ab"]).
+Proof.
+  split; [|split; [|split]]; try (eexists; split; [vm_compute; reflexivity|split; reflexivity]).
+  vm_compute. reflexivity.
+Qed.
 
 Print Assumptions C04_ws.
 Print Assumptions scan_string_spec.
@@ -1380,6 +1560,40 @@ Qed.
 End LeftGrouping.
 
 End Grouping.
+
+(* ---- examples (operators as pairs (lside, rside)): + = (60, Some 60), * = (70, Some 70),
+   := = (10, Some 9), the else-branch operator ?..: = (20, Some 0), postfix [..] = (100, None) ---- *)
+Section GroupingExamples.
+Let plus : nat * option nat := (60, Some 60).
+Let times : nat * option nat := (70, Some 70).
+Let assign : nat * option nat := (10, Some 9).
+Let cond : nat * option nat := (20, Some 0).
+Let idx : nat * option nat := (100, None).
+Let A (n : nat) : sym nat (nat * option nat) := SAtom n.
+Let O (o : nat * option nat) : sym nat (nat * option nat) := SOp o.
+Let L (n : nat) : tree nat (nat * option nat) := Leaf n.
+
+(* 1 + 2 * 3[..] + 4  groups as  (1 + (2 * (3[..]))) + 4 *)
+Example pratt_wf_ex :
+  let s := [A 1; O plus; A 2; O times; A 3; O idx; O plus; A 4] in
+  let t := Bin plus (Bin plus (L 1) (Bin times (L 2) (Post idx (L 3)))) (L 4) in
+  pexpr nat _ fst snd 20 0 s = Some (t, []) /\ wf_prec nat _ fst snd t /\ yield nat _ t = s /\
+  chain_ok nat _ snd true s = true /\ climb_root nat _ fst t.
+Proof. vm_compute. repeat split; repeat constructor. Qed.
+
+(* a := b := c  groups to the right;  a ? .. : c := d  gives the else-branch the assignment although
+   := is looser than ? (the pair the property cites) *)
+Example pratt_right_ex :
+  pexpr nat _ fst snd 20 0 [A 1; O assign; A 2; O assign; A 3]
+    = Some (Bin assign (L 1) (Bin assign (L 2) (L 3)), []) /\
+  pexpr nat _ fst snd 20 0 [A 1; O cond; A 3; O assign; A 4]
+    = Some (Bin cond (L 1) (Bin assign (L 3) (L 4)), []) /\
+  wf_prec nat _ fst snd (Bin cond (L 1) (Bin assign (L 3) (L 4))) /\
+  ~ wf_prec nat _ fst snd (Bin assign (Bin cond (L 1) (L 3)) (L 4)).
+Proof.
+  vm_compute. repeat split; try lia.
+Qed.
+End GroupingExamples.
 
 Open Scope string_scope.
 Open Scope Z_scope.
